@@ -191,6 +191,35 @@ func run(c *vf.Ctx) {
 				}
 			}
 		}
+		// Hardening E: one value on each side of every integer width / shortcut. Key lengths
+		// around 256 and 65536 (H' prefixes the length as 4 bytes; odd and even multiples of 32
+		// above each), pass counts around 256, lane counts around 32 and 64 (8*threads and
+		// 4*threads reach 256), memory just above 65536 KiB.
+		for _, kl := range []uint32{255, 256, 257, 288, 320, 352, 511, 512, 513, 65535, 65536, 65537, 65536 + 64, 65536 + 96} {
+			for _, tm := range [][2]uint32{{1, 8}, {2, 19}} {
+				grid = append(grid, point{mode, 1, uint8(tm[0]), tm[1], kl, 8, 16, len(grid) % 3})
+			}
+		}
+		passes := []uint32{255, 256, 257}
+		if c.Thorough {
+			passes = append(passes, 65535, 65536, 65537)
+		}
+		for _, tc := range passes {
+			grid = append(grid, point{mode, tc, 1, 8, 32, 8, 16, len(grid) % 3}, point{mode, tc, 2, 21, 65, 8, 16, len(grid) % 3})
+		}
+		for _, t := range []uint8{31, 32, 33, 63, 64, 65} {
+			p := uint32(t)
+			for _, m := range []uint32{1, 8*p - 1, 8 * p, 8*p + 1, 12*p + 1} {
+				grid = append(grid, point{mode, 1, t, m, 32, 8, 16, len(grid) % 3})
+			}
+		}
+		bigM := [][2]uint32{{1, 65541}}
+		if c.Thorough {
+			bigM = [][2]uint32{{1, 65536}, {1, 65541}, {3, 65536 + 17}}
+		}
+		for _, tm := range bigM {
+			grid = append(grid, point{mode, 1, uint8(tm[0]), tm[1], 32, 8, 16, len(grid) % 3})
+		}
 	}
 	c.Set("grid_points", len(grid))
 
@@ -209,13 +238,25 @@ func run(c *vf.Ctx) {
 		return pws[k], salts[k]
 	}
 	realKey := func(p point, pw, salt []byte) (out []byte, panicked bool, val any) {
+		// Hardening A: the call gets private copies that sit inside larger buffers (sentinel
+		// bytes in front and in the spare capacity behind); the call must leave all of it
+		// alone, and the copies are wiped before the result is compared.
+		gp, gpw := guard(pw)
+		gs, gsalt := guard(salt)
 		panicked, val, _ = vf.Protect(func() {
 			if p.mode == argon2ref.TypeI {
-				out = argon2.Key(pw, salt, p.time, p.memory, p.threads, p.keyLen)
+				out = argon2.Key(gpw, gsalt, p.time, p.memory, p.threads, p.keyLen)
 			} else {
-				out = argon2.IDKey(pw, salt, p.time, p.memory, p.threads, p.keyLen)
+				out = argon2.IDKey(gpw, gsalt, p.time, p.memory, p.threads, p.keyLen)
 			}
 		})
+		if !panicked && (!gp.intact(pw) || !gs.intact(salt)) {
+			d := p.detail()
+			d["password_intact"], d["salt_intact"] = gp.intact(pw), gs.intact(salt)
+			c.Violation("argon2 writes to the caller's password/salt buffer or its spare capacity", d)
+		}
+		gp.wipe()
+		gs.wipe()
 		return
 	}
 	classify := func(p point) string {
@@ -302,6 +343,11 @@ func run(c *vf.Ctx) {
 	rfcVectors(c, hasAsm, hasSSE4)
 	hprime(c)
 	lap("vectors_and_hprime")
+	longInputs(c)
+	hprimeLong(c)
+	lap("long_inputs_and_outputs")
+	histories(c)
+	lap("call_histories")
 	blockFunction(c, hasAsm, hasSSE4)
 	lap("block_function")
 }
@@ -488,4 +534,225 @@ func blockFunction(c *vf.Ctx, hasAsm, hasSSE4 bool) {
 		argon2.VerifC15SetSSE4(hasSSE4)
 	}
 	c.Sample(map[string]any{"part": "block function", "implementations": len(impls), "block_value_classes": len(alphabet), "pairs": len(alphabet) * len(alphabet)})
+}
+
+// ---- hardening additions
+
+// guarded is a private copy of a caller buffer placed inside a larger buffer: 8 sentinel bytes in
+// front, 24 sentinel bytes of spare capacity behind.
+type guarded struct {
+	buf []byte
+	n   int
+}
+
+func guard(b []byte) (guarded, []byte) {
+	buf := make([]byte, 8+len(b)+24)
+	for i := range buf {
+		buf[i] = 0xA5
+	}
+	copy(buf[8:], b)
+	return guarded{buf, len(b)}, buf[8 : 8+len(b)]
+}
+
+func (g guarded) intact(orig []byte) bool {
+	for i, v := range g.buf {
+		switch {
+		case i < 8 || i >= 8+g.n:
+			if v != 0xA5 {
+				return false
+			}
+		case v != orig[i-8]:
+			return false
+		}
+	}
+	return true
+}
+
+func (g guarded) wipe() {
+	for i := range g.buf {
+		g.buf[i] ^= 0xFF
+	}
+}
+
+// longLens returns 2^k + d for k in ks and the given deltas.
+func longLens(kmin, kmax int, deltas []int) []int {
+	var out []int
+	for k := kmin; k <= kmax; k++ {
+		for _, d := range deltas {
+			if n := 1<<uint(k) + d; n >= 0 {
+				out = append(out, n)
+			}
+		}
+	}
+	return out
+}
+
+// Hardening C: long passwords and salts. H_0 streams 24 bytes of parameters, LE32(len), the
+// password, LE32(len), the salt, ... through BLAKE2b (128-byte blocks): lengths 2^k + d put the
+// end of the password / salt on, just before and just after a block boundary of that stream
+// (d = -28 compensates the 28 bytes in front of the password) for k up to 22.
+func longInputs(c *vf.Ctx) {
+	kmax := 22
+	deltas := []int{-29, -28, -27, -1, 0, 1, 127, 128, 129}
+	lens := longLens(7, kmax, deltas)
+	src := vf.DetBytes(fmt.Sprintf("%d|argon2-long", c.Seed), 1<<uint(kmax)+200)
+	short := []byte("short-16-bytes-x")
+	type job struct {
+		mode   int
+		n      int
+		which  string
+		keyLen uint32
+	}
+	var jobs []job
+	for _, mode := range []int{argon2ref.TypeI, argon2ref.TypeID} {
+		for i, n := range lens {
+			kl := []uint32{32, 65}[i%2]
+			jobs = append(jobs, job{mode, n, "password", kl}, job{mode, n, "salt", kl})
+		}
+		for _, n := range []int{1<<16 + 100, 1<<20 - 28} {
+			jobs = append(jobs, job{mode, n, "both", 32})
+		}
+	}
+	c.ParallelFor(len(jobs), func(i int) {
+		j := jobs[i]
+		pw, salt := short, short
+		switch j.which {
+		case "password":
+			pw = src[1 : 1+j.n]
+		case "salt":
+			salt = src[3 : 3+j.n]
+		default:
+			pw, salt = src[1:1+j.n], src[5:5+j.n+3]
+		}
+		want := argon2ref.Lenient(j.mode, pw, salt, nil, nil, 1, 8, 1, j.keyLen)
+		gp, gpw := guard(pw)
+		gs, gsalt := guard(salt)
+		var got []byte
+		p, val, _ := vf.Protect(func() {
+			if j.mode == argon2ref.TypeI {
+				got = argon2.Key(gpw, gsalt, 1, 8, 1, j.keyLen)
+			} else {
+				got = argon2.IDKey(gpw, gsalt, 1, 8, 1, j.keyLen)
+			}
+		})
+		c.Eval(1)
+		d := map[string]any{"mode": j.mode, "long": j.which, "len": j.n, "keyLen": j.keyLen}
+		switch {
+		case p:
+			d["panic"] = fmt.Sprint(val)
+			c.Violation("argon2 panics [long "+j.which+"]", d)
+		case !gp.intact(pw) || !gs.intact(salt):
+			c.Violation("argon2 writes to the caller's password/salt buffer or its spare capacity", d)
+		case !bytes.Equal(got, want):
+			d["got"], d["want"] = vf.Hex8(got), vf.Hex8(want)
+			c.Violation("argon2 output != RFC 9106 model [long "+j.which+"]", d)
+		}
+		c.Nontrivial(fmt.Sprintf("long/%d/%s/%d", j.mode, j.which, j.n))
+	})
+	c.Outcome("long passwords/salts checked")
+	c.Sample(map[string]any{"part": "long inputs", "lengths": "2^k+{-29,-28,-27,-1,0,1,127,128,129}, k=7..22", "jobs": len(jobs)})
+}
+
+// Hardening C/B: H' for long outputs (2^k + d up to 4 MiB, every residue class mod 64 that the
+// code distinguishes, on each side of 2^16) into destination buffers that hold old data.
+func hprimeLong(c *vf.Ctx) {
+	lens := longLens(11, 22, []int{-33, -32, -31, -1, 0, 1, 31, 32, 33, 63, 64, 65})
+	in := c.Bytes("hprime-long-in", 0, 72)
+	c.ParallelFor(len(lens), func(i int) {
+		n := lens[i]
+		out := bytes.Repeat([]byte{0xC3}, n+16)
+		p, val, _ := vf.Protect(func() { argon2.VerifC15BlakeHash(out[:n], in) })
+		c.Eval(1)
+		d := map[string]any{"outLen": n, "inLen": len(in)}
+		if p {
+			d["panic"] = fmt.Sprint(val)
+			c.Violation("blake2bHash (H') panics", d)
+			return
+		}
+		if w := argon2ref.HPrime(n, in); !bytes.Equal(out[:n], w) {
+			k := 0
+			for k < n && out[k] == w[k] {
+				k++
+			}
+			d["first_diff"], d["got"], d["want"] = k, vf.Hex8(out[k:]), vf.Hex8(w[k:])
+			c.Violation("blake2bHash (H') != RFC 9106 §3.3 [long output]", d)
+		}
+		if !bytes.Equal(out[n:], bytes.Repeat([]byte{0xC3}, 16)) {
+			c.Violation("blake2bHash (H') writes beyond the output slice", d)
+		}
+		c.Nontrivial(fmt.Sprintf("hprime/%d", n))
+	})
+}
+
+// Hardening D/A: call histories. Key/IDKey are functions: every history of 3 calls over an alphabet
+// of parameter sets (different memory sizes, lane counts, modes, so that any state carried from one
+// call to the next - scratch memory, cached parameters - has a different shape) must return the model
+// value at each position, and results returned earlier must not change when later calls run.
+func histories(c *vf.Ctx) {
+	type ps struct {
+		mode    int
+		time    uint32
+		memory  uint32
+		threads uint8
+		keyLen  uint32
+		pl, sl  int
+	}
+	alpha := []ps{
+		{argon2ref.TypeI, 1, 8, 1, 32, 8, 16},
+		{argon2ref.TypeID, 2, 67, 4, 97, 0, 200},
+		{argon2ref.TypeID, 1, 8, 1, 32, 8, 16},
+		{argon2ref.TypeI, 1, 40, 2, 64, 200, 1},
+		{argon2ref.TypeID, 3, 24, 3, 128, 1, 8},
+		{argon2ref.TypeI, 2, 100, 5, 20, 30, 30},
+	}
+	in := make([][2][]byte, len(alpha))
+	want := make([][]byte, len(alpha))
+	for i, a := range alpha {
+		in[i] = [2][]byte{c.Bytes("hist-pw", i, a.pl), c.Bytes("hist-salt", i, a.sl)}
+		want[i] = argon2ref.Lenient(a.mode, in[i][0], in[i][1], nil, nil, a.time, a.memory, uint32(a.threads), a.keyLen)
+	}
+	n := len(alpha)
+	c.ParallelFor(n*n*n, func(h int) {
+		seq := []int{h / (n * n), h / n % n, h % n}
+		var outs, saved [][]byte
+		for pos, k := range seq {
+			a := alpha[k]
+			_, pw := guard(in[k][0])
+			_, salt := guard(in[k][1])
+			var got []byte
+			p, val, _ := vf.Protect(func() {
+				if a.mode == argon2ref.TypeI {
+					got = argon2.Key(pw, salt, a.time, a.memory, a.threads, a.keyLen)
+				} else {
+					got = argon2.IDKey(pw, salt, a.time, a.memory, a.threads, a.keyLen)
+				}
+			})
+			c.Eval(1)
+			d := map[string]any{"history": seq, "position": pos}
+			if p {
+				d["panic"] = fmt.Sprint(val)
+				c.Violation("argon2 panics in a call history", d)
+				return
+			}
+			for i := range pw {
+				pw[i] ^= 0xFF
+			}
+			for i := range salt {
+				salt[i] ^= 0xFF
+			}
+			if !bytes.Equal(got, want[k]) {
+				d["got"], d["want"] = vf.Hex8(got), vf.Hex8(want[k])
+				c.Violation("argon2 output depends on earlier calls (!= RFC 9106 model at a later position of a call history)", d)
+			}
+			outs, saved = append(outs, got), append(saved, append([]byte(nil), got...))
+			for q := 0; q < pos; q++ {
+				if !bytes.Equal(outs[q], saved[q]) {
+					d["earlier_position"] = q
+					c.Violation("argon2: a key returned earlier changes when a later call runs", d)
+				}
+			}
+		}
+		c.Nontrivial(fmt.Sprintf("hist/%v", seq))
+	})
+	c.Outcome("call histories checked")
 }
